@@ -111,7 +111,28 @@ def wl_c01(tier, seed, shard, nshards):
             yield prog
 
 
+def backref_programs():
+    """numeric / named back references next to digits, quantifiers and groups (a reference must not absorb a neighbour)"""
+    O, Lx = G.OPN, G.L
+    for nm in (None, 'g7'):
+        cap = O('cap', Lx('a'), name=nm)
+        refs = [{'o': 'bref', 'r': 1}] + ([{'o': 'bref', 'r': nm}] if nm else [])
+        for r in refs:
+            for tail in (Lx('0'), Lx('12'), Lx('7x'), G.CLS('AnyDigit'), Lx('a'), O('opt', Lx('3')), G.FROM('0', '1'), G.BTW('0', '9'), Lx('٣')):
+                for f in 'cmo':
+                    yield {'prog': O('cat', cap, r, tail), 'form': f, 'w': 'Wref'}
+                    yield {'prog': O('cat', cap, O('cat', r, tail)), 'form': f, 'w': 'Wref'}
+                yield {'prog': O('cat', cap, O('enc', tail, r)), 'form': 'c', 'w': 'Wref'}
+                yield {'prog': O('cat', cap, O('enc', r, tail)), 'form': 'm', 'w': 'Wref'}
+                yield {'prog': O('cat', cap, O('alt', O('cat', r, tail), Lx('z'))), 'form': 'c', 'w': 'Wref'}
+                yield {'prog': O('cat', cap, O('fol', r, tail)), 'form': 'c', 'w': 'Wref'}
+            for q in (O('ex', r, n=2), O('plus', r), O('opt', r), O('q', r, n=1, m=3)):
+                yield {'prog': O('cat', cap, q, Lx('0')), 'form': 'c', 'w': 'Wref'}
+                yield {'prog': O('cat', cap, q), 'form': 'm', 'w': 'Wref'}
+
+
 def wl_c02(tier, seed, shard, nshards):
+    yield from take(backref_programs(), shard, nshards)
     yield from take(G.w3_depth1(), shard, nshards)
     r = shard_rnd(seed, shard, 1)
     if tier == 'quick':
@@ -123,6 +144,7 @@ def wl_c02(tier, seed, shard, nshards):
 
 
 def wl_c03(tier, seed, shard, nshards):
+    yield from take(backref_programs(), shard, nshards)
     yield from take(G.w_invalid(), shard, nshards)
     yield from take(G.w_stress(), shard, nshards)
     yield from take(G.w3_depth1(), shard, nshards)
